@@ -157,3 +157,28 @@ package termrenderers
 //@   loop 1 invariant ref(rangeslice()) == ref(vals) && off(rangeslice()) == off(vals)
 //@ func (*BarGraph).WriteFooter
 //@   requires wf_bar(s) && idx >= 0 && idx <= 1000000000
+
+// ---- data table ----
+// a formatter that was set sees the table's real extent: setting one switches the min/max pass on,
+// and WriteTable hands every call of the formatter bounds of all cells whenever that pass is on
+//@ pred wf_dt(s) := s.table != nil && wf_tw(s.table) && s.numRows >= 0 && s.numCols >= 0 && s.numCols <= 1000000000 && s.formatter != nil
+//@ func (*DataTable).SetFormatter
+//@   requires f != nil
+//@   ensures s.formatter == f && s.needsMinMax
+//@   ensures s.table == old(s.table) && s.numRows == old(s.numRows) && s.numCols == old(s.numCols)
+//@ func minColSlice
+//@   requires count >= 0
+//@   pure
+//@   ensures len(result) <= len(cols) && len(result) <= count + 0 || len(result) == len(cols)
+//@   ensures len(result) <= len(cols)
+//@ pred cell_bounds(t, lo, hi) := forall rk: str :: forall ck: str :: in_dom(t.rows, rk) && in_dom(t.cols, ck) ==> lo <= cell(t, rk, ck) && cell(t, rk, ck) <= hi
+//@ pred dt_inv(s, counter, lo, hi) := wf_dt(s) && counter != nil && wf_table(counter) && (s.needsMinMax ==> cell_bounds(counter, lo, hi))
+//@ func (*DataTable).WriteTable
+//@   requires wf_dt(s) && counter != nil
+//@   requires [objinv] wf_table(counter)
+//@   assert at "s.formatter("#* : s.needsMinMax ==> cell_bounds(counter, min, max)
+//@   loop 1 invariant dt_inv(s, counter, min, max) && len(colNames) == len(cols) + 2 && fresh(colNames) && rangeindex + 1 <= len(cols) && rangelen() == len(cols)
+//@   loop 2 invariant dt_inv(s, counter, min, max) && 0 <= i && line == i + 1 && (forall k in [0, len(rows)) :: rows[k] != nil)
+//@   loop 3 invariant dt_inv(s, counter, min, max) && 0 <= i && i < len(rows) && i < s.numRows && line == i + 1 && (forall k in [0, len(rows)) :: rows[k] != nil) && row != nil
+//@   loop 3 invariant len(rowVals) == len(cols) + 2 && fresh(rowVals) && rangeindex + 1 <= len(cols) && rangelen() == len(cols)
+//@   loop 4 invariant dt_inv(s, counter, min, max) && line >= 1 && len(rowVals) == len(cols) + 2 && fresh(rowVals) && rangeindex + 1 <= len(cols) && rangelen() == len(cols)
